@@ -123,18 +123,18 @@ CLAIMS = {
             "note": TIE + "The theorem is structural (the model's reset is transcribed from each impl Reset); whether the code's reset forgets something is decided by the correspondence and by the real reset-vs-fresh differential."},
     "C13": {"text": "Theorems over ordered fields, gains in [0,1], all lengths: EMA and exponential-median outputs stay in any interval containing the samples (ema_hull, emed_hull), constants reproduced (ema_const); at registry level ema_registry_hull / emedian_registry_hull, and the filters' runs ARE the recurrences y[n] = y[n-1] + w(x[n] - y[n-1]) (ema_registry_correct) and pre-average -> clamp -> mid-gain step of the exponential median (emedian_registry_correct, Spec.emedRec). The recurrences are also executable specification clauses evaluated on every output of the implementation (exact rationals).",
             "note": TIE + FLOATS},
-    "C14": {"text": "Theorems over commutative rings: alpha-beta run is linear in the input (ab_linear: superposition with arbitrary scalars), constants reproduced exactly (ab_const). Recurrence is an executable specification checked against the implementation.",
+    "C14": {"text": "Theorems over commutative rings: alpha-beta run is linear in the input (ab_linear: superposition with arbitrary scalars), constants reproduced exactly (ab_const); at registry level (what the driver executes): alphaBeta_registry_correct (run = recurrence Spec.abRec), alphaBeta_registry_linear / _scale / _offset / _const. The recurrence is also an executable specification clause evaluated on every output of the implementation.",
             "note": TIE + FLOATS},
-    "C15": {"text": "Theorems over additive commutative groups, all lengths: integrate(differentiate(x)) = x - x0, differentiate(integrate(x)) = 0 :: tail (int_diff, diff_int). Correspondence: both filters alone and composed both ways.",
+    "C15": {"text": "Theorems over additive commutative groups, all lengths: integrate(differentiate(x)) = x - x0, differentiate(integrate(x)) = 0 :: tail (int_diff, diff_int); at registry level: differentiate_registry_correct (0, then x[k]-x[k-1]), integrate_registry_correct (running sum), and the two compositions of registry runs (integrate_differentiate_registry, differentiate_integrate_registry). Correspondence: both filters alone (with resets, copies, guts round trips) and composed both ways.",
             "note": TIE},
-    "C16": {"text": "Theorems: mean output = mean filter output for both variants (emv_mean_eq, smv_mean_eq); sliding variant: variance >= 0 (smv_var_nonneg) and zero on constants (smv_var_const) over ordered fields, offset invariance FALSE of the code (smv_offset_counterexample: 13/18 vs 331/6); exponential variant, gain in [0,1]: variance >= 0 (emv_var_nonneg), offset invariance (emv_offset). Sliding variant: mean equality, non-negativity and zero-on-constants are checked against the specification on every run; offset invariance is FALSE of the code (reads the running sum) — machine-checked counter-example, recorded as a known finding.",
+    "C16": {"text": "Theorems at registry level: the mean component of every output equals the registry's mean / exponential-mean filter output on the same samples, for every sample type (meanVar_registry_mean_eq, emeanVar_registry_mean_eq); over ordered fields meanVar_registry_nonneg, meanVar_registry_const, emeanVar_registry_nonneg (gain in [0,1]), emeanVar_registry_offset. Underneath: mean output = mean filter output for both variants (emv_mean_eq, smv_mean_eq); sliding variant: variance >= 0 (smv_var_nonneg) and zero on constants (smv_var_const) over ordered fields, offset invariance FALSE of the code (smv_offset_counterexample: 13/18 vs 331/6); exponential variant, gain in [0,1]: variance >= 0 (emv_var_nonneg), offset invariance (emv_offset). Sliding variant: mean equality, non-negativity and zero-on-constants are checked against the specification on every run; offset invariance is FALSE of the code (reads the running sum) — machine-checked counter-example, recorded as a known finding.",
             "note": TIE + "Known finding sliding-mv-reads-sum (KNOWN_FINDINGS.txt). " + FLOATS},
     "C17": {"text": "Theorems at registry level (widths >= 2): after any history min() = Spec.minimum, median() = Spec.lowerMedian of the window, max() = the LATEST sample (median_registry_accessors); nothing before the first sample (median_registry_accessors_init); machine-checked counter-example to the max clause (median_max_counterexample). Underneath: on the pointer-level model min() = window minimum, median() = lower median (accessors_L via refinement); max() provably returns the latest sample (acc_max_is_latest) — the property's max clause is false of the code, recorded as a known finding. Correspondence: all three accessors before the first and after every sample.",
             "note": TIE + "Known finding median-max-accessor (KNOWN_FINDINGS.txt)."},
     "C18": {"text": "Theorems over ordered fields at registry level (widths >= 2): output k = decision applied to minimum / lower median / latest sample of the window of the min(k,N) samples BEFORE sample k (hampel_registry); never a third value, first unchanged (hampelOut_two_valued, hampelOut_first); inlier passes (hampelOut_inlier); outlier beyond t*f*max-distance replaced (hampelOut_outlier). Underneath (threshold >= 0, factor > 0): the decision returns the sample or the median and nothing else (decide_two_valued, decide_first), passes every sample within t*f*(median-min) (decide_inlier), replaces every sample beyond t*f*D for any bound D on the two distances the filter reads (decide_outlier, decide_const_window); the window statistics it reads are those of the median model (C02/C17 theorems). Correspondence: bit-exact at Float/Float32; the property's clauses evaluated in exact rationals on every output.",
             "note": TIE + "The decision theorems are about exact arithmetic; the bit-exact correspondence covers rounding. Hampel reads Median::max() (latest sample, see C17 finding): the property's clauses are phrased so that they hold of it."},
-    "C19": {"text": "PARTIAL (ownership logic only). Theorems: what each windowed filter's model state owns after construction, reset (= fresh), after a step of the mean (min(k,N) taps + sum + weight), convolution (N coefficients + N taps) and delay (N taps) filters, and by the median filter in every state reachable from Default (exactly min(k,N) values: owned_median_registry, via the refinement invariant); copies are the identity on states (run_append). Correspondence: the harness's live-instance ledger of an instrumented sample type equals the sum of the models' owned counts after every operation of random filter/clone/guts/reset/drop programs, no double drop or use of a dead value is ever recorded, and the ledger is empty once everything is dropped.",
-            "note": TIE + "What this cannot exhibit: reads of uninitialised memory / use after free inside the MaybeUninit + raw-read block of median.rs and inside circular-buffer (runtime truth, outside any executable model); the owned count of the min/max deques (data dependent, <= N) is checked by the correspondence only."},
+    "C19": {"text": "PARTIAL (ownership logic only). Theorems: what each windowed filter's model state owns after construction, reset (= fresh), after a step of the mean (min(k,N) taps + sum + weight), convolution (N coefficients + N taps) and delay (N taps) filters, and, at registry level for every history from Default: the median filter owns exactly min(k,N) values (owned_median_registry, via the refinement invariant), the moving average min(k,N) taps + sum + weight (owned_mean_registry), the convolution its N coefficients and N taps (owned_convolve_registry), the delay N taps (owned_delay_registry), and each min/max deque between 1 and min(k,N) entries whatever the clock rebasing (owned_max_registry, owned_min_registry, owned_bounds_registry: the ring never overflows, so push_back never evicts behind the algorithm's back); copies are the identity on states (run_append). Correspondence: the harness's live-instance ledger of an instrumented sample type equals the sum of the models' owned counts after every operation of random filter/clone/guts/reset/drop programs, no double drop or use of a dead value is ever recorded, and the ledger is empty once everything is dropped.",
+            "note": TIE + "What this cannot exhibit: reads of uninitialised memory / use after free inside the MaybeUninit + raw-read block of median.rs and inside circular-buffer (runtime truth, outside any executable model); the exact owned count of the min/max deques is data dependent (bounded by theorem, matched exactly by the correspondence)."},
     "C20": {"text": "Theorems over the registry: runs compose (run_append: a continuation depends only on the state reached, which is all Clone / guts carry), cache and unit wrappers return exactly the wrapped filter's outputs and remember the last (cache_filter, cache_run, cache_slot, unit_run); source cache (cache_correct, cache_slot). Correspondence: clone / guts round trip at random points of every filter kind, identical and diverging continuations, copy vs fresh replay, cache vs bare filter.",
             "note": TIE + "Unit-system wrappers (dimensioned feature) are modelled; their correspondence run is listed in DESIGN.md."},
 }
